@@ -210,7 +210,7 @@ package nsqd
 //                         non-ephemeral name the look-up returned had been passed to GetChannel of the new topic
 //                         after the look-up - also when the look-up returned an error together with names.
 //@ func (n *NSQD) GetTopic(topicName string) *Topic
-//@   props C16
+//@   props C16 C01 C13
 //@   requires n != nil && n.ci != nil
 //@   ensures[topic] result != nil && result.nsqd != nil && result.idFactory != nil && result.backend != nil
 //@   ensures[existing-returned] atlock(has(n.topicMap, topicName)) ==> result == atlock(n.topicMap[topicName]) && startCount == old(startCount) && luCount == old(luCount)
